@@ -132,3 +132,19 @@ pub fn vx_unwrap_lock_nopanic(r: core::result::Result<Box<HashMap<u64, Identity>
 {
     match r { Ok(g) => g, Err(_) => vx_forbidden_panic(w) }
 }
+
+// ---------------------------------------------------------------- metrics: clock-dependent helpers NOT under contract (A11)
+#[cfg(feature = "metrics")]
+impl MetricsCollector {
+    /// SystemTime::now() ... store into last_activity_millis: only that cell changes
+    #[verifier::external_body]
+    pub fn update_last_activity(&self, w: &mut World)
+        ensures
+            final(w).cells() == old(w).cells().insert(self.last_activity_millis.cell(), final(w).cells()[self.last_activity_millis.cell()]),
+            final(w).log() == old(w).log(), same_ambient_but_cells(*old(w), *final(w)),
+    { unimplemented!() }
+    #[verifier::external_body]
+    pub fn get_last_activity(&self, w: &mut World) -> (r: Option<SystemTime>)
+        ensures *final(w) == *old(w),
+    { unimplemented!() }
+}
